@@ -209,7 +209,10 @@ func MakeCase(in PipeIn, workdir string, caseNo int) Case {
 			add("empty-line")
 		}
 		if len(b) > 131072 {
-			add("line-longer-than-read-buffer")
+			add("input-longer-than-read-buffer")
+			if b[131071] == '\n' {
+				add("line-ends-on-read-buffer-boundary")
+			}
 		}
 		for _, st := range s.Script {
 			if st.Kind == 2 {
@@ -420,6 +423,11 @@ func GenC01(r *Rng, n int, tier string) []PipeIn {
 	big := append(bytes.Repeat([]byte("a"), 140000), []byte(":\nb:\nlast")...)
 	ins[0] = PipeIn{Cfg: Config{Mode: "files", Batch: 2, Workers: 2, Readers: 1, Buffer: 1, Matcher: "colon", DelaySeed: 7},
 		Extract: []KPiece{{Kind: "group", Idx: 1}}, Sources: []Source{{Name: "big.log", Stream: hex.EncodeToString(big)}, {Name: "small.log", Stream: hex.EncodeToString([]byte("x:\ny: z\n"))}}}
+	if len(ins) > 3 { // 1024 lines of 128 bytes fill the 128 KiB read buffer exactly: the newline of line 1024 is its last byte
+		ins[2] = alignedCase("colon", []KPiece{{Kind: "group", Idx: 1}}, func(c byte) []byte {
+			return append(bytes.Repeat([]byte{c}, 126), ':', '\n')
+		})
+	}
 	if len(ins) > 2 {
 		st := []byte("a:\nb:\nc:\nd:\ne")
 		ins[1] = PipeIn{Cfg: Config{Mode: "reader", Batch: 1000, Workers: 2, Readers: 1, Buffer: 1, Matcher: "colon", DelaySeed: 9},
@@ -486,6 +494,12 @@ func GenC02(r *Rng, n int, tier string) []PipeIn {
 		}
 		ins = append(ins, in)
 	}
+	if len(ins) > 2 {
+		ins[1] = alignedCase("re:"+c02Regexes[0], []KPiece{{Kind: "line"}, {Kind: "lit", Text: "|"}, {Kind: "group", Idx: 1}, {Kind: "lit", Text: "|"}, {Kind: "group", Idx: 2}}, func(c byte) []byte {
+			return append(bytes.Repeat([]byte{c}, 120), []byte("=123456\n")...)
+		})
+		ins[1].Cfg.HoldAll = true
+	}
 	if len(ins) > 1 { // time-flush path: line numbers across timer-forced batches
 		st := []byte("k=1\nq=\nzz=22\nw=3\nlast=9")
 		ins[0] = PipeIn{Cfg: Config{Mode: "reader", Batch: 1000, Workers: 1, Readers: 1, Buffer: 1, Matcher: "re:" + c02Regexes[0], DelaySeed: 3, HoldAll: true},
@@ -493,6 +507,20 @@ func GenC02(r *Rng, n int, tier string) []PipeIn {
 			Sources: []Source{{Name: "<stdin>", Stream: hex.EncodeToString(st), Script: []Step{{Want: 4}, {Want: 3, Wait: 300}, {Want: 6}, {Want: 4, Wait: 300}, {Want: 8}}}}}
 	}
 	return ins
+}
+
+// alignedCase: a file whose lines are 128 bytes long, so that a line ends exactly on the last byte of the
+// 128 KiB read-ahead buffer and more input follows (the boundary where a read buffer could be reused).
+func alignedCase(matcher string, extract []KPiece, line func(c byte) []byte) PipeIn {
+	var b []byte
+	for i := 0; i < 1024; i++ {
+		b = append(b, line('a')...)
+	}
+	for i := 0; i < 700; i++ {
+		b = append(b, line('c')...)
+	}
+	return PipeIn{Cfg: Config{Mode: "files", Batch: 1000, Workers: 2, Readers: 1, Buffer: 2, Matcher: matcher, DelaySeed: 11},
+		Extract: extract, Sources: []Source{{Name: "aligned.log", Stream: hex.EncodeToString(b)}}}
 }
 
 const Header = "From Coq Require Import List NArith ZArith String.\nFrom RareV Require Import Base.Hex Model.Extract Corr.PipeCase.\nImport ListNotations.\nOpen Scope N_scope. Open Scope string_scope.\n"
